@@ -46,6 +46,10 @@ ThrottleList::enable() {
 
   m_enabled = true;
 
+  // Bytes counted while unthrottled were never collected by the parent
+  // throttle, do not report them all at once on the next tick.
+  m_rateAdded = 0;
+
   if (!empty() && m_splitActive == begin())
     throw internal_error("ThrottleList::enable() m_splitActive is invalid.");
 }
